@@ -32,6 +32,10 @@ def gen_cases(rng, tier):
             c = gen_case(rng, maxlen=rng.choice([3, 5, 8]), depth=3, p_sub=0.3, reps=(1, 2, 2, 3, 4))
         c['obs'] = ['plain', 'unrolled']
         cases.append(c)
+    for _ in range(24 if tier == 'quick' else 400):      # rarely met shapes (coregen.gen_structured)
+        c = coregen.gen_structured(rng)
+        c['obs'] = ['plain', 'unrolled']
+        cases.append(c)
     # library-built circuits: the unrolled listing of a repeated block must be the n-fold concatenation of its listing
     nlib = 24 if tier == 'quick' else 300
     for _ in range(nlib):
